@@ -44,11 +44,11 @@ case "${1:-}" in
   C18)
     build
     build_nopar
-    exec "$H/target/release/pcverif" run "$1" "${2:-quick}"
+    exec "$H/target/release/pcverif" run "$1" "${2:-quick}" 2> "$H/last-stderr.log"
     ;;
   C*)
     build
-    exec "$H/target/release/pcverif" run "$1" "${2:-quick}"
+    exec "$H/target/release/pcverif" run "$1" "${2:-quick}" 2> "$H/last-stderr.log"
     ;;
   *)
     echo "usage: $0 <ID> <quick|thorough> | replay <file> | setup" >&2
